@@ -34,7 +34,10 @@ func me(label string, v any, text string) Op {
 
 // meOps are MarshalEncode calls whose implementation has fast paths that append to the buffer directly.
 func meOps() []Op {
+	// values behind *any take the untyped ("any") marshal paths
+	pa := func(v any) *any { return &v }
 	return []Op{
+		me("*any([]any{})", pa([]any{}), "[]"), me("*any(map[string]any{})", pa(map[string]any{}), "{}"), me(`*any("s")`, pa("s"), `"s"`), me("*any(nil)", pa(nil), "null"),
 		me("[]any{}", []any{}, "[]"), me("map[string]any{}", map[string]any{}, "{}"), me("[]int{}", []int{}, "[]"), me("map[string]int{}", map[string]int{}, "{}"),
 		me("any([]any{})", any([]any{}), "[]"), me(`"s"`, "s", `"s"`), me("nil", nil, "null"), me("[]any{1}", []any{1.0}, "[1]"), me("struct{}", struct{}{}, "{}"),
 		me(`map[string]any{"a":[]}`, map[string]any{"a": []any{}}, `{"a":[]}`),
